@@ -10,6 +10,7 @@ response whose status byte(s) and payload are symbolic, or misbehaves at one
 picked command (IOError from write/read, truncated, garbled or error frame).
 """
 import errno
+import os
 import nfc.clf
 import nfc.clf.pn53x
 import nfc.clf.rcs380
@@ -253,12 +254,24 @@ def cmdname(driver, link):
 
 
 FAULTS = {
-    'io': [('w', 'ETIMEDOUT'), ('w', 'ENODEV'), ('w', 'EIO'),
-           ('a', 'ETIMEDOUT'), ('a', 'EIO'), ('a', 'ENODEV'), ('a', 'EPIPE'),
-           ('r', 'ETIMEDOUT'), ('r', 'EIO'), ('r', 'ENODEV'), ('r', 'EPIPE')],
+    # every transport position of a host command (write, ACK read, response
+    # read) x every shape of error object the transport may raise
+    'io': [(pos, shape) for pos in ('w', 'a', 'r')
+           for shape in ('EIO', 'ENODEV', 'ETIMEDOUT', 'EPIPE', 'text',
+                         'noargs', 'serial')],
     'frame': [('short', 1), ('short', 3), ('short', 5), ('short', 6),
               ('short', -2), ('short', -1), ('err', None), ('garble', None)],
 }
+
+
+def fault_name(f):
+    """label component: kind of the fault; for transport errors also whether
+    the error object carried an errno"""
+    if f is None:
+        return "none"
+    if f.kind in ('w', 'a', 'r'):
+        return "%s/%s" % (f.kind, "errno" if f.arg.startswith("E") else "no-errno:" + f.arg)
+    return f.kind
 
 
 def exchange(sx, driver, kind, fault, nmax=6, plen=3, csbits=12, timeout=None, both=False):
@@ -281,7 +294,7 @@ def exchange(sx, driver, kind, fault, nmax=6, plen=3, csbits=12, timeout=None, b
             # target mode formats the communication status with str() (a dict
             # lookup that enumerates it): garble the 10 bytes before it only
             arg = 10
-        f = Fault(at, fk, ERRNOS[arg] if fk in 'war' else arg)
+        f = Fault(at, fk, arg)
     # both=True: symbolic chip status AND one host-link fault at a later
     # command (two-step histories: error status, then a fault in whatever the
     # driver does about it); only the escape/None/lock obligations apply then
@@ -299,8 +312,7 @@ def exchange(sx, driver, kind, fault, nmax=6, plen=3, csbits=12, timeout=None, b
         if out is None:
             # a driver-internal (or any undocumented) exception type escaped
             sx.check(False, "escaped:%s:%s:after=%s:fault=%s" % (
-                site(e), tag, cmdname(driver, link),
-                f.kind if f is not None else "none"))
+                site(e), tag, cmdname(driver, link), fault_name(f)))
     if f is not None and not link.fault_hit:
         # the exchange has fewer host commands than the picked index
         sx.reach("fault-index-beyond-exchange")
@@ -311,6 +323,8 @@ def exchange(sx, driver, kind, fault, nmax=6, plen=3, csbits=12, timeout=None, b
         sx.check(False, "frontend-lock-left-locked:" + tag)
     if f is not None:
         sx.reach("fault:" + f.kind)
+        if f.kind in ('w', 'a', 'r'):
+            sx.reach("ioerror-shape:" + f.arg)
         if out == "None" and kind in INITIATOR:
             sx.check(False, "none-returned-after-host-link-fault:%s:%s" % (tag, f.kind))
         return out
@@ -457,6 +471,21 @@ class StubSocketModule(object):
         return StubSocket(self.script)
 
 
+class SocketTimeout(OSError):
+    """socket.timeout / socket.herror style: an OSError subclass raised with
+    a message only (errno None)"""
+
+
+def socket_error(shape, code):
+    if shape == 'errno':
+        return OSError(code, os.strerror(code))
+    if shape == 'text':
+        return OSError("socket gone")
+    if shape == 'noargs':
+        return OSError()
+    return SocketTimeout("timed out")
+
+
 class StubSocket(object):
     def __init__(self, script):
         self.script = script
@@ -475,7 +504,7 @@ class StubSocket(object):
         s['sent'] += 1
         if s['send'] == 'error':
             s['fault'] = True
-            raise OSError(errno.ENETUNREACH, "Network is unreachable")
+            raise socket_error(s['shape'], errno.ENETUNREACH)
         if s['send'] == 'partial':
             s['fault'] = True
             return len(data) - 1
@@ -485,7 +514,7 @@ class StubSocket(object):
         s = self.script
         if s['recv'] == 'error':
             s['fault'] = True
-            raise OSError(errno.ECONNREFUSED, "Connection refused")
+            raise socket_error(s['shape'], errno.ECONNREFUSED)
         return s['dgram'], ("127.0.0.1", 54321)
 
 
@@ -513,6 +542,9 @@ def udp_exchange(sx, role):
     script['send'] = sx.pick("send", ['ok', 'error', 'partial'])
     script['recv'] = sx.pick("recv", ['dgram', 'error', 'silence'])
     name = sx.pick("dgram", sorted(DGRAMS)) if script['recv'] == 'dgram' else 'good'
+    script['shape'] = 'errno'
+    if 'error' in (script['send'], script['recv']):
+        script['shape'] = sx.pick("shape", ['errno', 'text', 'noargs', 'subclass'])
     script['dgram'] = DGRAMS[name]
     udp = nfc.clf.udp
     saved = udp.socket, udp.select
@@ -557,12 +589,12 @@ QUICK = {
     # driver: {kind: fault classes}; the full product runs in the thorough tier
     'pn532': None,          # everything
     'rcs380': None,
-    'pn533': {'tt2': 'nif', 'tt1': 'n', 'ltt2': 'n', 'ltt3': 'n'},
-    'pn531': {'tt2': 'nif', 'ttf': 'n', 'ldep': 'n', 'ltt3': 'nif'},
-    'rcs956': {'tt2': 'nif', 'tt1': 'n', 'ttb': 'n', 'ltt2': 'n'},
+    'pn533': {'tt2': 'nif', 'tt1': 'n', 'ltt2': 'ni', 'ltt3': 'n'},
+    'pn531': {'tt2': 'nif', 'ttf': 'n', 'ldep': 'ni', 'ltt3': 'nif'},
+    'rcs956': {'tt2': 'nif', 'tt1': 'n', 'ttb': 'n', 'ltt2': 'ni'},
     'acr122': {'tt2': 'nif', 'ttb': 'n', 'dep-passive': 'n'},
-    'arygonA': {'tt2': 'ni'},
-    'arygonB': {'tt2': 'ni'},
+    'arygonA': {'tt2': 'ni', 'ldep': 'i', 'ltt3': 'i'},
+    'arygonB': {'tt2': 'ni', 'ldep': 'i'},
 }
 
 
@@ -621,6 +653,10 @@ def partitions(tier):
 MUST_REACH = ["out:data", "out:TimeoutError", "out:TransmissionError",
               "out:BrokenLinkError", "out:IOError", "fault:w", "fault:a",
               "fault:r", "fault:short", "fault:garble", "fault:err",
+              "ioerror-shape:EIO", "ioerror-shape:ENODEV",
+              "ioerror-shape:ETIMEDOUT", "ioerror-shape:EPIPE",
+              "ioerror-shape:text", "ioerror-shape:noargs",
+              "ioerror-shape:serial", "udp:IOError",
               "udp:data", "udp:TimeoutError", "udp:BrokenLinkError",
               "udp:TransmissionError"] + \
     ["kind:" + k for k in ('tt2', 'tt4a', 'tt1', 'tt1-read8', 'ttb', 'ttf',
@@ -628,7 +664,7 @@ MUST_REACH = ["out:data", "out:TimeoutError", "out:TransmissionError",
                            'ldep-recv', 'ltt3')]
 
 BOUNDS = {
-    "quick": "pn532 and rcs380: every target kind the driver can activate (Type 2, 4A, 1 incl. the PN532 READ8 register path, Type B, Type F, DEP active/passive as initiator; listen-mode Type 2 / DEP with and without data to send / Type 3 via CIU registers) x {no fault, I/O fault, frame fault}; pn533, pn531, rcs956, acr122: Type 2 with all three fault classes plus 2-4 further kinds without fault (table QUICK); arygon A/B: Type 2 without fault and with I/O faults. Without host-link fault: the status byte of *every* host command of the exchange is symbolic over 0..255 simultaneously (PN533 ReadRegister/WriteRegister, RC-S956 WriteRegister, InCommunicateThru/InDataExchange/TgResponseToInitiator/TgGetInitiatorCommand; CIU_CommIRq/CIU_DivIRq for the Type 3 listen loop); RC-S380: 8-bit status of InSetRF/InSetProtocol, all 32 bits of the InCommRF communication status, 9 of the 12 named bits of the TgCommRF status; 3-4 symbolic payload bytes (Type 2: incl. CRC_A; also a 1-byte ACK/NAK). With a fault: exactly one fault at any host command index of the exchange out of {IOError ETIMEDOUT/ENODEV/EIO from write, ETIMEDOUT/EIO/ENODEV/EPIPE from the ACK read or the response read, response cut to 1,3,5,6,len-2,len-1 bytes, chip error frame, arbitrary bytes of the response's length}, statuses good. udp: send ok/error/partial x receive (9 datagram shapes)/socket error/silence, initiator and target role",
+    "quick": "pn532 and rcs380: every target kind the driver can activate (Type 2, 4A, 1 incl. the PN532 READ8 register path, Type B, Type F, DEP active/passive as initiator; listen-mode Type 2 / DEP with and without data to send / Type 3 via CIU registers) x {no fault, I/O fault, frame fault}; pn533, pn531, rcs956, acr122: Type 2 with all three fault classes plus 2-4 further kinds without fault (table QUICK); arygon A/B: Type 2 without fault and with I/O faults. Without host-link fault: the status byte of *every* host command of the exchange is symbolic over 0..255 simultaneously (PN533 ReadRegister/WriteRegister, RC-S956 WriteRegister, InCommunicateThru/InDataExchange/TgResponseToInitiator/TgGetInitiatorCommand; CIU_CommIRq/CIU_DivIRq for the Type 3 listen loop); RC-S380: 8-bit status of InSetRF/InSetProtocol, all 32 bits of the InCommRF communication status, 9 of the 12 named bits of the TgCommRF status; 3-4 symbolic payload bytes (Type 2: incl. CRC_A; also a 1-byte ACK/NAK). With a fault: exactly one fault at any host command index of the exchange out of {a transport error raised from write, from the ACK read or from the response read (each position separately) in every shape the transport can produce: IOError with errno EIO/ENODEV/ETIMEDOUT/EPIPE, IOError('text only') and IOError() (errno None), a pyserial-style SerialException(IOError) instance (errno None), response cut to 1,3,5,6,len-2,len-1 bytes, chip error frame, arbitrary bytes of the response's length}, statuses good. udp: send ok/error/partial x receive (9 datagram shapes)/socket error/silence, socket errors as OSError with errno, text only, without arguments and as a socket.timeout-style subclass, initiator and target role; in quick every driver has transport-error partitions for an initiator-side and (where the driver can listen) a target-side exchange",
     "thorough": "all eight driver classes x all kinds they support x all three fault classes, Type 1 RSEG (16 chip commands), PN533 READ8 path (a status byte on each of ~20 register commands), all 12 named TgCommRF status bits; pn532/pn533/rcs956/rcs380 Type 2, Type F and DEP-target exchanges also with 0 and 7 payload bytes and time-outs 0.5 ms, 5 s (RC-S380: 0)",
 }
 OUTSIDE = [
